@@ -1,0 +1,11 @@
+//go:build !verif
+
+package goja
+
+// Verification hooks (see verif_on.go). With the "verif" build tag off they compile away.
+
+const verifEnabled = false
+
+func verifTick(*vm) {}
+
+func verifForceRealloc(*valueStack, int) bool { return false }
